@@ -1,19 +1,42 @@
 /- C17 line-protocol driver: the shutdown scenarios are nondeterministic runs of the real code, so there is no model
 DIFF; the property oracle is evaluated on the implementation's own observations: every `stop …` line must be
-`ok <bucket>` and every `caller …` line must be `returned <class>`.  `HANG <label>` is an ORACLE-FAIL with shape <label>. -/
+`ok <bucket>` and every `caller …` line must be `returned <class>`.  `HANG <label>` is an ORACLE-FAIL with shape <label>.
+
+Scenario `blockmanager-reorg-midrollback` (Stop between two iterations of a reorganisation's roll-back inside the real
+block handler, then the directory is opened again):
+  reopen => tip <h>:<id> chain <ok|bad@h> lookups <ok|bad@h> known <ok|bad@h> file <ok|bad> ftip <h> | err <what>
+* oracle (C17 "reopened … with the guarantees of C01 … intact", on what the REOPENED stores report): one linked chain,
+  lookups by height / by hash / of the tip agree, every header is one the client was given, the flat file is as long
+  as the index says, the filter tip is not above the block tip  → shape=reopen-inconsistent-after-stop-mid-reorg;
+* model replay (Neutrino/Model/StopReorg.lean, `reorgQ false`): the tip the restart finds is the tip of the new
+  branch - the quit moment is invisible in the stores (`C17_stop_mid_reorg_same_as_no_stop`)  → DIFF otherwise. -/
 import Driver.Proto
+import Neutrino.Model.StopReorg
 namespace Driver.Drv.Stop
 open Driver
 
 def okObs (kind : String) (obs : List String) : Bool :=
   match kind, obs with
-  | "stop", ["ok", b] => b == "<10ms" || b == "<100ms" || b == "<1s" || b == "<2s"
+  | "stop", ["ok", b] => b == "<10ms" || b == "<100ms" || b == "<1s" || b == "<2s" || b == "<10s"
   | "caller", ["returned", c] => c == "nil" || c == "shutdown" || c == "err"
   | "markconfirmed", ["ok", _] => true
   | _, _ => false
 
+/-- `key=<n>` among the header words -/
+def headerNat (hd : List String) (key : String) : Option Nat :=
+  (hd.find? (·.startsWith (key ++ "="))).bind fun (w : String) => (w.drop (key.length + 1)).toString.toNat?
+
+/-- ids of the model: old chain header h ↦ h, header at height h of the new branch ↦ 1000 + h -/
+def modelTip (n f m k : Nat) : String :=
+  let s := Neutrino.StopReorg.reorgQ false (Neutrino.StopReorg.ofChain (List.range (n + 1))) f
+    ((List.range m).map fun i => 1000 + f + 1 + i) (some k)
+  let id := s.file.getLast?.getD 0
+  s!"{s.tip}:" ++ (if id ≥ 1000 then s!"n{id - 1000}" else s!"o{id}")
+
 def runCase : CaseFn := fun c => Id.run do
   let mut out : Array String := #[]
+  let mid := c.header.getD 1 "" == "blockmanager-reorg-midrollback"
+  let mut reopened := false
   for (ln, line) in c.lines do
     let (opS, obsS) := splitObs line
     let ws := words opS
@@ -29,7 +52,25 @@ def runCase : CaseFn := fun c => Id.run do
         | _ =>
           if !okObs k obs then
             out := out.push s!"DIFF C17 case {c.num} line {ln}: unparsable observation <{line}>"
+      else if k == "reopen" then
+        reopened := true
+        match obs with
+        | ["tip", tip, "chain", ch, "lookups", lk, "known", kn, "file", fl, "ftip", ft] =>
+          let th := ((tip.splitOn ":").headD "").toNat?.getD 0
+          let ftOk := match ft.toNat? with | some f => decide (f ≤ th) | none => false
+          if !(ch == "ok" && lk == "ok" && kn == "ok" && fl == "ok" && ftOk) then
+            out := out.push s!"ORACLE-FAIL C17 case {c.num} line {ln}: shape=reopen-inconsistent-after-stop-mid-reorg the stores reopened after Stop in the middle of a reorganisation roll-back are not a valid chain state ({" ".intercalate c.header}): {obsS}"
+          match headerNat c.header "len", headerNat c.header "fork", headerNat c.header "branch", headerNat c.header "stopat" with
+          | some n, some f, some m, some k' =>
+            let want := modelTip n f m k'
+            if tip != want then
+              out := out.push s!"DIFF C17 case {c.num} line {ln}: tip found by the restart: implementation <{tip}> model <{want}>"
+          | _, _, _, _ => out := out.push s!"DIFF C17 case {c.num} line {ln}: unparsable case header <{" ".intercalate c.header}>"
+        | _ =>
+          out := out.push s!"ORACLE-FAIL C17 case {c.num} line {ln}: shape=reopen-failed-after-stop-mid-reorg the directory could not be reopened after Stop in the middle of a reorganisation roll-back ({" ".intercalate c.header}): {obsS}"
     | none => pure ()
+  if mid && !reopened && !(out.any (·.startsWith "ORACLE-FAIL")) then
+    out := out.push s!"DIFF C17 case {c.num} line 0: the scenario did not get as far as reopening the stores ({" ".intercalate c.header})"
   return out
 
 end Driver.Drv.Stop
